@@ -222,3 +222,35 @@ R9 = REG.add(Contract(
     ensures=closes_everything, exc_ensures=closes_everything,
     verify_with=verify_read_skeleton, **dict(COMMON, modifies={"$open": fresh_only, "encoding": None})))
 R9.handle_names = ("file_obj",)
+
+
+# ---- C10: the string channel of open_file hands the reader exactly the caller's text
+sio = z3.Function("py_StringIO", PyObj, PyObj)                       # StringIO(text)
+sio_kw = z3.Function("py_StringIO_newline", PyObj, PyObj, PyObj)     # StringIO(text, newline=...)
+
+REG.add(Contract("reader.check_for_path_obj", case="str", params={"file_ref": STR}, returns=lambda c: c.a["file_ref"], assumed=True,
+                 noraise=True, only_on_request=True,
+                 note="for a str argument check_for_path_obj returns the argument itself (isinstance(file_ref, Path) is false)",
+                 properties=("C10",)))
+REG.add(Contract("lib:StringIO", params={"initial_value": "any", "newline": "any"}, assumed=True,
+                 returns=lambda c: VObj(sio_kw(c.eng.to_obj(c.a["initial_value"]), c.eng.to_obj(c.a["newline"])) if "newline" in c.a
+                                        else sio(c.eng.to_obj(c.a["initial_value"]))),
+                 note="io.StringIO(text[, newline]) is an in-memory text stream over exactly that text; it holds no OS handle",
+                 properties=("C10", "C20")))
+
+
+def open_file_text_post(c):
+    r0 = c.res.items[0]
+    if isinstance(r0, VFile):
+        return [("a-single-line-string-is-a-file-name (handle from open_with_codecs)", z3.BoolVal(True))]
+    x = z3.Const("any_text", PyObj)
+    return [("a-multi-line-string-is-read-as-it-is: the stream is StringIO(the caller's text)",
+             z3.Or(c.eng.to_obj(r0) == sio(obj_of_str(c.a["file_ref"].t)),
+                   z3.Exists([x], c.eng.to_obj(r0) == sio_kw(x, none_obj))))]
+
+
+OPEN_FILE_TEXT = REG.add(Contract(
+    "reader.open_file", case="text", params={"file_ref": STR, "encoding_kwargs": "dict"},
+    ensures=open_file_text_post, returns=TUPLE(OBJ, OBJ), use={"reader.check_for_path_obj": "str"}, only_on_request=True,
+    **dict(COMMON, properties=("C10",))))
+OPEN_FILE_TEXT.note = ("str.splitlines, URL_REGEXP.match and the URL download are opaque; the URL branch is recognised by its StringIO(..., newline=None) call")
